@@ -188,6 +188,9 @@ def generate(rng, tier, idx, force=None):
             if sub and rng.random() < 0.25:
                 mode = rng.choice(("older", "equal"))
             ops.append(["write", i, d, mode])
+        elif r < 0.33 and rng.random() < 0.5:
+            # the URI is a symbolic link that is re-pointed to a new release of the file
+            ops.append(["relink", i, d])
         elif r < 0.36:
             ops.append(["delete", i, d])
         elif r < 0.41:
@@ -482,6 +485,25 @@ class Harness:
             self.write_file(op[1], op[2], op[3], "ok")
         elif name == "break":
             self.write_file(op[1], op[2], "now", op[3])
+        elif name == "relink":
+            i, d = op[1], op[2]
+            p = self.path(i, d)
+            v = self.versions.get((i, d), 0) + 1
+            self.versions[(i, d)] = v
+            tag = (i, d, v)
+            rel = posixpath.join(self.root, "releases", "u%dd%dv%d.html" % tag)
+            m = w.put_file(rel, content(self.uspecs[i], tag, "ok"))
+            os.makedirs(posixpath.dirname(p), exist_ok=True)
+            tmp = p + ".lnk~"
+            if os.path.lexists(tmp):
+                os.remove(tmp)
+            os.symlink(rel, tmp)
+            os.rename(tmp, p)
+            w.unreadable.discard(p)
+            self.model.unreadable.discard(p)
+            self.model.file_written(p, tag, m, "ok")
+            self.probes.hit("symlink-repointed")
+            self.log.add("relink", w.rel(p), tagstr(tag), round(m, 6))
         elif name == "delete":
             p = self.path(op[1], op[2])
             if w.del_file(p):
@@ -517,7 +539,19 @@ class Harness:
                 r = e
             finally:
                 w.enabled = False
-            if len(self.records) == n0 + 1:
+            if len(self.records) == n0:
+                # has_template answered without asking get_template: ask now (nothing has changed in between)
+                w.enabled = True
+                try:
+                    self.lookup.get_template(op[1])
+                except SeamCapExceeded:
+                    raise
+                except Exception:
+                    pass
+                finally:
+                    w.enabled = False
+                self.probes.hit("has-template-answered-without-lookup")
+            if len(self.records) >= n0 + 1:
                 out = self.records[-1][1]
                 if out[0] == "served" and r is not True:
                     self.viol.append(("C14/wrong-exception", "has_template(%r) = %r although get_template served it" % (op[1], r)))
@@ -693,7 +727,7 @@ def execute(trace, root):
         violations.append({"signature": sig, "message": msg})
     ops = trace["ops"]
     nontrivial = sum(1 for o in ops if o[0] in ("get", "render", "has")) >= 2 and any(
-        o[0] in ("write", "break", "delete", "advance", "advance_frac", "put_string", "put_template", "restart") for o in ops)
+        o[0] in ("write", "relink", "break", "delete", "advance", "advance_frac", "put_string", "put_template", "restart") for o in ops)
     return {
         "violations": violations,
         "digest": h.log.digest(),
